@@ -496,6 +496,7 @@ def run(ctx):
                 fh.write(bytes(c["file"]))
             ddf = R.DD.DATADumpFile(path)
             cur = list(c["ms"])
+            expect_file = list(c["file"])        # what the capture must hold: the initial records followed by every appended record
             trace = []
             bad = None
             last = None
@@ -507,6 +508,7 @@ def run(ctx):
                         continue
                     ddf.append_msg(U.real(m))
                     cur.append(m)
+                    expect_file += list(R.DD.DATADump().dump_msg(U.real(m)))
                     trace.append("append")
                     last = None if last is None else last      # the next read often asks for last + 1 (sequential access)
                     continue
@@ -514,9 +516,17 @@ def run(ctx):
                     i = last + 1
                 else:
                     i = rng.below(len(cur) + 1)
-                ddf.f.flush()
-                content = list(open(path, "rb").read())
-                got, want = R.one(ddf.parse_msg(i)), R.parse_msg(content, i)
+                if rng.chance(1, 2):
+                    # half of the reads look at the file on disk first (flushed): it holds exactly the expected records
+                    ddf.f.flush()
+                    content = list(open(path, "rb").read())
+                    trace.append("flush")
+                    if content != expect_file:
+                        bad = (-1, content[-12:], expect_file[-12:])
+                        break
+                # the other half read straight through the object that has just appended (no flush by the caller: a reader of its own
+                # capture does not know about buffers) - the i-th stored message is returned all the same
+                got, want = R.one(ddf.parse_msg(i)), R.parse_msg(expect_file, i)
                 spec = ([0] + enc_msg(cur[i])) if i < len(cur) else None
                 trace.append("parse_msg(%d)" % i)
                 nmix += 1
